@@ -35,7 +35,7 @@ EXPLANATION = (
     "(reported). (R4) the 'full' test of add() must compare len(self._container) with self._bound_2 only; LIST must not size "
     "or index its container by bound_2 - bound_1. (R5) same query methods in all four classes and their return expressions. "
     "(R6) ARRAY.__getitem__ raises for None unless self._optional. "
-    "(R5/R6 are decided semantically: return expressions as linear forms over bound_1, bound_2, len(container); the unset-element guard executed for OPTIONAL x {unset, set-but-false, set}.) (R7) Type.get_type (BaseType.py) resolves a name in vars(self._scope), and a table of resolved types is keyed by every attribute of self that the look-up reads. Not decided: agreement of sizes, indices and uniqueness with a reference model over operation histories — that quantifies "
+    "(R5/R6 are decided semantically: return expressions as linear forms over bound_1, bound_2, len(container); the unset-element guard executed for OPTIONAL x {unset, set-but-false, set}.) (R7) Type.get_type (BaseType.py) resolves a name in vars(self._scope), and a table of resolved types is keyed by every attribute of self that the look-up reads. (R8) check_type (TypeChecker.py), the only filter in front of every store, refuses None for every expected type: explored path by path with instance := None (isinstance(None, X) false, None in ids false, attribute access raises), no path returns True. Not decided: agreement of sizes, indices and uniqueness with a reference model over operation histories — that quantifies "
     "over run-time sequences; these rules show that each single operation is guarded the way EXPRESS requires.")
 
 PKG = "/repo/src/exp2python/python/stepcode"
@@ -156,7 +156,146 @@ def r7_base_type_resolution(res):
             "another scope gets the class resolved for the first scope" % (bad[1], bad[2]))
 
 
+def r8_none_rejected_by_filter(res):
+    """The aggregates call check_type(value, base type) as their only filter: no store looks at OPTIONAL before it.  So the filter
+    itself must refuse the indeterminate value None for every expected type.  check_type is explored path by path with
+    instance := None: `isinstance(instance, X)` is False, `instance in X` is False (enumeration ids are strings), `instance is None`
+    is True, an attribute of instance raises; every other test forks.  No path may end in `return True` (or fall off the end after
+    an assignment that made the result true)."""
+    path = os.path.join(PKG, "TypeChecker.py")
+    rel = "src/exp2python/python/stepcode/TypeChecker.py"
+    try:
+        tree = ast.parse(open(path, encoding="utf-8").read())
+    except (OSError, SyntaxError) as e:
+        res.broke("cannot parse %s: %s" % (rel, e))
+        return
+    fn = [n for n in tree.body if isinstance(n, ast.FunctionDef) and n.name == "check_type"]
+    if not fn or len(fn[0].args.args) < 2:
+        res.broke("anchor vanished: check_type(instance, expected_type) in %s" % rel)
+        return
+    fn = fn[0]
+    inst = fn.args.args[0].arg
+    RAISE = object()
+
+    def ev(e, env):
+        """-> True / False / None (unknown) / RAISE"""
+        if isinstance(e, ast.Constant):
+            return bool(e.value) if isinstance(e.value, (bool, int, str, type(None))) else None
+        if isinstance(e, ast.Name):
+            if e.id == inst:
+                return False            # None is falsy
+            return env.get(e.id)
+        if isinstance(e, ast.UnaryOp) and isinstance(e.op, ast.Not):
+            v = ev(e.operand, env)
+            return v if v in (None, RAISE) else (not v)
+        if isinstance(e, ast.BoolOp):
+            vals = []
+            for x in e.values:
+                v = ev(x, env)
+                if v is RAISE:
+                    return RAISE if not vals or all(y is not None for y in vals) else None
+                if isinstance(e.op, ast.And) and v is False:
+                    return False
+                if isinstance(e.op, ast.Or) and v is True:
+                    return True
+                vals.append(v)
+            return None if any(v is None for v in vals) else (all(vals) if isinstance(e.op, ast.And) else any(vals))
+        if isinstance(e, ast.Call) and isinstance(e.func, ast.Name) and e.func.id == "isinstance" and len(e.args) == 2:
+            if isinstance(e.args[0], ast.Name) and e.args[0].id == inst:
+                return False
+            return None
+        if isinstance(e, ast.Compare) and len(e.ops) == 1:
+            l, r = e.left, e.comparators[0]
+            li = isinstance(l, ast.Name) and l.id == inst
+            ri = isinstance(r, ast.Name) and r.id == inst
+            rn = isinstance(r, ast.Constant) and r.value is None
+            ln = isinstance(l, ast.Constant) and l.value is None
+            op = e.ops[0]
+            if (li and rn) or (ln and ri):
+                if isinstance(op, (ast.Is, ast.Eq)):
+                    return True
+                if isinstance(op, (ast.IsNot, ast.NotEq)):
+                    return False
+            if li and isinstance(op, ast.In):
+                return False
+            if li and isinstance(op, ast.NotIn):
+                return True
+            for side in (l, r):
+                for a in ast.walk(side):
+                    if isinstance(a, ast.Attribute) and isinstance(a.value, ast.Name) and a.value.id == inst:
+                        return RAISE
+            return None
+        for a in ast.walk(e):
+            if isinstance(a, ast.Attribute) and isinstance(a.value, ast.Name) and a.value.id == inst:
+                return RAISE
+        return None
+
+    accepted = []
+    npaths = [0]
+
+    def run_block(body, env, k):
+        """k(env) continues after the block; returns nothing, records accepting paths"""
+        if not body:
+            return k(env)
+        st, rest = body[0], body[1:]
+        nxt = lambda e2: run_block(rest, e2, k)
+        if isinstance(st, ast.Return):
+            npaths[0] += 1
+            v = True if st.value is None else ev(st.value, env)
+            if st.value is None:
+                return
+            if v is True or v is None:
+                accepted.append((st.lineno, "return %s" % src(st.value)))
+            return
+        if isinstance(st, ast.Raise):
+            npaths[0] += 1
+            return
+        if isinstance(st, ast.If):
+            v = ev(st.test, env)
+            if v is RAISE:
+                npaths[0] += 1
+                return
+            if v is not False:
+                run_block(st.body, dict(env), nxt)
+            if v is not True:
+                run_block(st.orelse, dict(env), nxt)
+            return
+        if isinstance(st, (ast.For, ast.While)):
+            # zero or one iteration is enough for a may-analysis of the flags assigned in the body
+            run_block(st.body, dict(env), nxt)
+            return nxt(env)
+        if isinstance(st, ast.Assign) and len(st.targets) == 1 and isinstance(st.targets[0], ast.Name):
+            v = ev(st.value, env)
+            if v is RAISE:
+                npaths[0] += 1
+                return
+            env = dict(env)
+            env[st.targets[0].id] = v
+            return nxt(env)
+        if isinstance(st, ast.Expr):
+            if ev(st.value, env) is RAISE:
+                npaths[0] += 1
+                return
+        return nxt(env)
+
+    def fall_off(env):
+        npaths[0] += 1      # implicit `return None`: falsy, the callers treat it as a refusal
+
+    run_block(fn.body, {}, fall_off)
+    ok = not accepted
+    res.add("R8.none_rejected_by_the_type_filter", "R8|%s|check_type|None" % rel, "%s:%d" % (rel, accepted[0][0] if accepted else fn.lineno), ok,
+            "check_type(None, T) raises or returns False on each of its %d paths: the indeterminate value cannot be stored in a non-OPTIONAL "
+            "aggregate" % npaths[0] if ok else
+            "check_type(None, T) can reach `%s` at line %d: None passes the only filter of BAG.add / SET.add / LIST and ARRAY assignment, is "
+            "counted as an element, and un-sets a stored element of a non-OPTIONAL aggregate" % (accepted[0][1], accepted[0][0]))
+    if npaths[0] < 4:
+        res.broke("R8: only %d paths of check_type explored" % npaths[0])
+    # premise: the stores do rely on check_type alone - no store is guarded by a test of the value against None
+    res.info["r8_paths_of_check_type"] = npaths[0]
+
+
 def run(prog, res, tier):
+    r8_none_rejected_by_filter(res)
     r7_base_type_resolution(res)
     path = os.path.join(PKG, FILE)
     try:
